@@ -665,6 +665,24 @@ def run_c12(mod, lib, case, root, canon, datadir):
             mon("job-side-raises:" + err_kind(e), f"params.json -> run() raised {type(e).__name__}: {str(e)[:200]}", {"entry": "job"})
             return rec
         target = loaded.get(id(rootobj)) if is_task else inst
+        # the values given to the runtime objects, definition by definition (model: instanceValues);
+        # a DataPath that arrives as a str is rendered as the path it denotes (finding C12-N3 is the monitor's business)
+        if loaded:
+            inst_index = {id(o): index[k] for k, o in loaded.items() if k in index}
+            vals = []
+            for k, o in loaded.items():
+                fs = []
+                for name, a in inst_type(o).arguments.items():
+                    if name in vars(o):
+                        v = vars(o)[name]
+                        if a.is_data and isinstance(v, str):
+                            v = Path(v)
+                        fs.append([hx(name), model_val(v, inst_index, canon)])
+                vals.append([index.get(k, -1), fs])
+            rec["lines"].append({"op": "graph", "nodes": [node_json(o, index, canon) for o in objs]})
+            rec["impl"].append({"ok": True})
+            rec["lines"].append({"op": "instvalues", "root": r})
+            rec["impl"].append({"values": vals})
 
         def data_obs(x, y, at):
             if isinstance(y, str) and not isinstance(y, Path):
